@@ -841,10 +841,11 @@ def harden(rng, recipe, then=True):
     return recipe
 
 
-def wide_recipe(rng, axis, n_axis=None):
-    """size thresholds: >= 64 IDs on an axis, the other operand's IDs in another order, partly new and longer"""
+def wide_recipe(rng, axis, n_axis=None, fast=False):
+    """size thresholds: >= 64 IDs on an axis, the other operand's IDs in another order, partly new and longer;
+    fast=True: nothing carries metadata and both modes are union, i.e. the call is served by the fast path"""
     regime = rng.choice(["small", "bigint", "fine"])
-    sa = core.wide_spec(rng, n_axis=n_axis, axis=axis, classes=VALUE_CLASSES, md=rng.random() < 0.5)
+    sa = core.wide_spec(rng, n_axis=n_axis, axis=axis, classes=VALUE_CLASSES, md=(not fast) and rng.random() < 0.5)
     sa["rows"] = gen_grid(rng, len(sa["obs"]), len(sa["samp"]), 0.6, regime)
     key = "samp" if axis == "sample" else "obs"
     okey = "obs" if axis == "sample" else "samp"
@@ -859,15 +860,15 @@ def wide_recipe(rng, axis, n_axis=None):
     sb = {key: bids, okey: oids, "type": None, "omd": None, "smd": None}
     n, m = len(sb["obs"]), len(sb["samp"])
     sb["rows"] = gen_grid(rng, n, m, 0.6, regime)
-    if rng.random() < 0.5:
+    if (not fast) and rng.random() < 0.5:
         sb["omd"] = gen_md(rng, sb["obs"], "t1", "plain")
         sb["smd"] = gen_md(rng, sb["samp"], "t1", "plain")
     ops = [{"spec": sa, "route": rng.choice(core.ROUTES), "hist": []},
            {"spec": sb, "route": rng.choice(core.ROUTES), "hist": []}]
     if rng.random() < 0.5:
         ops.reverse()
-    return {"ops": ops, "form": rng.choice(["single", "list"]), "ms": rng.choice(MODES), "mo": rng.choice(MODES),
-            "fs": policy(rng), "fo": policy(rng)}
+    return {"ops": ops, "form": rng.choice(["single", "list"]), "ms": "union" if fast else rng.choice(MODES),
+            "mo": "union" if fast else rng.choice(MODES), "fs": policy(rng), "fo": policy(rng)}
 
 
 def many_recipe(rng, k):
@@ -958,6 +959,12 @@ def run(ctx):
     run_case(ctx, harden(rng, wide_recipe(rng, axis, n_axis=rng.choice([513, 520, 600])), then=False),
              ("wide", "over-512", "axis=" + axis))
     ctx.count("wide>512=" + axis)
+    # index-width thresholds of the fast path: few IDs on one axis, more than 256 on the other (a buffer sized from one
+    # axis and used for the other wraps around), each axis in the wide role
+    for axis in ("sample", "observation"):
+        for n_axis in ((257, 300) if ctx.quick() else (257, 300, 511, 1000)):
+            run_case(ctx, wide_recipe(rng, axis, n_axis=n_axis, fast=True), ("wide", "fast-path", "axis=" + axis))
+            ctx.count("wide-fast-path=%s/%d" % (axis, n_axis))
     # random, including k-tuples
     n = 1150 if ctx.quick() else max(4000, 40000 // nw)
     for _ in range(n):
